@@ -122,6 +122,12 @@ def dbuscall(ctx, obj, member, *args):
     out_sig = getattr(meth, '_dbus_out_signature', None)
     if in_sig is not None:
         dbusmodel.check(in_sig, args)   # a harness bug if this raises
+    if hasattr(obj, 'locations') and not list(obj.locations):
+        # the object was removed from the bus: the daemon answers UnknownObject, the method never runs
+        err = dbus.DBusException('no such object', name='org.freedesktop.DBus.Error.UnknownObject')
+        dbus.RECORDER.add(kind='method-error', obj=obj, path=getattr(obj, '_object_path', None), member=member,
+                          args=args, error='UnknownObject')
+        return CallError(err)
     try:
         ret = ctx.call(meth, *args)
     except Exception as err:
